@@ -4,7 +4,7 @@ import cxx_specs as XS
 
 PROPERTY = "C03"
 LEVEL = "proof"
-EXPLANATION = ""
+EXPLANATION = ('Proof over an abstract history: for every earlier binding of a VM (any cache object, memory address and key tag) randomx_vm_set_cache leaves the VM bound to the cache it was given; for every earlier key of a cache object randomx_init_cache re-initialises unless the key is equal as a whole; a batch of first/next/last calls performs the same steps as single calls. The representation invariant is re-established by every public operation, so it holds after any history (meta-step).')
 TRUSTED = ["heap contents / allocator behaviour", "std::string equality == byte-wise key equality (abstract identity in the proofs)",
            "induction over public operations (meta-step: every operation requires and ensures the representation invariant)"]
 ASSUMPTIONS = []
